@@ -57,7 +57,9 @@ theorem no_creation_while_paused (sp : Spec) (w : World) (ev : Event)
             · rfl
             · split
               · rfl
-              · simp [ids, setTask_ids]
+              · split
+                · rfl
+                · simp [ids, setTask_ids]
       | rpcResult t ok =>
         simp only
         split
@@ -151,7 +153,9 @@ theorem paused_stays_paused (sp : Spec) (w : World) (ev : Event) (hp : w.wf = .P
               · rw [(checkAffected_tasks sp _ t).2]; exact hp
           · split
             · exact hp
-            · split <;> exact hp
+            · split
+              · exact hp
+              · split <;> exact hp
       | rpcResult t ok =>
         simp only
         split
